@@ -25,27 +25,36 @@ def _states(summary):
     return sorted(((p.outcome, p.value, _norm_events(p)) for p in summary.paths + summary.diverged), key=repr)
 
 
+VARIANTS = (
+    ('rel', '', 'computes the same return states with debug assertions off (release configuration)', 'dev', 'release'),
+    # L-FEATURES: the harness links the library with `serde` and `std` on; a `default-features = false` user gets neither
+    ('min', 'F', 'computes the same return states with the `serde` and `std` features off (L-FEATURES)', 'all-features', 'min-features'),
+)
+
+
 def check(ctx, rep, rule, whichs, suites=None):
     n = 0
-    for sn in (suites or ctx.suite_names):
-        for which in whichs:
-            gp, names = API[which] if which in API else (which, None)
-            params = [Sym(x) for x in names] if names else None
-            try:
-                a = ctx.summary(sn, gp, params=params)
-                b = ctx.summary('rel:' + sn, gp, params=params)
-            except KeyError as e:
-                rep.ob(rule, '%s: instance present in both build configurations' % which, False, str(e), '', sn)
-                continue
-            sa, sb = _states(a), _states(b)
-            same = sa == sb
-            n += int(same)
-            detail = ''
-            if not same:
-                da = [x for x in sa if x not in sb][:1]
-                db = [x for x in sb if x not in sa][:1]
-                detail = 'dev-only state: %s\nrelease-only state: %s' % (
-                    [(o, show(v)[:300], [str(e)[:120] for e in ev if e not in (db[0][2] if db else ())][:4]) for o, v, ev in da],
-                    [(o, show(v)[:300], [str(e)[:120] for e in ev if e not in (da[0][2] if da else ())][:4]) for o, v, ev in db])
-            rep.ob(rule, '%s computes the same return states with debug assertions off (release configuration)' % which, same, detail, where_of(a), sn)
+    for var, suffix, text, la, lb in VARIANTS:
+        vrule = rule if not suffix else (rule[:-1] + suffix if rule.endswith('P') else rule + suffix)
+        for sn in (suites or ctx.suite_names):
+            for which in whichs:
+                gp, names = API[which] if which in API else (which, None)
+                params = [Sym(x) for x in names] if names else None
+                try:
+                    a = ctx.summary(sn, gp, params=params)
+                    b = ctx.summary(var + ':' + sn, gp, params=params)
+                except KeyError as e:
+                    rep.ob(vrule, '%s: instance present in both build configurations' % which, False, str(e), '', sn)
+                    continue
+                sa, sb = _states(a), _states(b)
+                same = sa == sb
+                n += int(same)
+                detail = ''
+                if not same:
+                    da = [x for x in sa if x not in sb][:1]
+                    db = [x for x in sb if x not in sa][:1]
+                    detail = '%s-only state: %s\n%s-only state: %s' % (
+                        la, [(o, show(v)[:300], [str(e)[:120] for e in ev if e not in (db[0][2] if db else ())][:4]) for o, v, ev in da],
+                        lb, [(o, show(v)[:300], [str(e)[:120] for e in ev if e not in (da[0][2] if da else ())][:4]) for o, v, ev in db])
+                rep.ob(vrule, '%s %s' % (which, text), same, detail, where_of(a), sn)
     return n
